@@ -956,7 +956,8 @@ pub trait AggBasic: IntoIterator + Sized {
     {
         self.into_iter().fold(None, |acc, x| match acc {
             None => Some(x),
-            Some(v) => Some(v.max_with(x)),
+            // a NaN seen first must not stick: every comparison with it is false
+            Some(v) => Some(if v.is_none() { x } else { v.max_with(x) }),
         })
     }
 
@@ -991,7 +992,8 @@ pub trait AggBasic: IntoIterator + Sized {
     {
         self.into_iter().fold(None, |acc, x| match acc {
             None => Some(x),
-            Some(v) => Some(v.min_with(x)),
+            // a NaN seen first must not stick: every comparison with it is false
+            Some(v) => Some(if v.is_none() { x } else { v.min_with(x) }),
         })
     }
 
@@ -1030,7 +1032,10 @@ pub trait AggBasic: IntoIterator + Sized {
         let mut current_idx = 0;
         self.into_iter().for_each(|v| {
             if let Some(max_value) = &max {
-                if let Some(Ordering::Greater) = v.partial_cmp(max_value) {
+                // also replace a current best that is incomparable with itself (a leading NaN)
+                if matches!(v.partial_cmp(max_value), Some(Ordering::Greater))
+                    || (max_value.partial_cmp(max_value).is_none() && v.partial_cmp(&v).is_some())
+                {
                     max = Some(v);
                     max_idx = Some(current_idx);
                 }
@@ -1078,7 +1083,10 @@ pub trait AggBasic: IntoIterator + Sized {
         let mut current_idx = 0;
         self.into_iter().for_each(|v| {
             if let Some(min_value) = &min {
-                if let Some(Ordering::Less) = v.partial_cmp(min_value) {
+                // also replace a current best that is incomparable with itself (a leading NaN)
+                if matches!(v.partial_cmp(min_value), Some(Ordering::Less))
+                    || (min_value.partial_cmp(min_value).is_none() && v.partial_cmp(&v).is_some())
+                {
                     min = Some(v);
                     min_idx = Some(current_idx);
                 }
